@@ -345,6 +345,15 @@ Definition consts_handle (fields : list (list N)) : list N :=
       | Some o, Some x, Some y => show_res (binary_op o x y)
       | _, _, _ => # "driver-error:bin"
       end
+    else if beq fn (# "shifterr") then
+      match parse_op a, parse_cst b, parse_cst c with
+      | Some o, Some x1, Some x =>
+        match shift_const_error o (cst_zero x1) x with
+        | None => # "ok:"
+        | Some e => # "err:" ++ err_name e
+        end
+      | _, _, _ => # "driver-error:shifterr"
+      end
     else # "driver-error:unknown"
   | [fn; a; b] =>
     if beq fn (# "repr") then
@@ -364,15 +373,6 @@ Definition consts_handle (fields : list (list N)) : list N :=
       | Some (Num x), Some (Cplx c d) => # "ok:" ++ show_cst (Cplx x (I64 0)) ++ [32%N] ++ show_cst (Cplx c d)
       | Some (Cplx c d), Some (Num y) => # "ok:" ++ show_cst (Cplx c d) ++ [32%N] ++ show_cst (Cplx y (I64 0))
       | _, _ => # "driver-error:same"
-      end
-    else if beq fn (# "shifterr") then
-      match parse_op a, parse_cst b with
-      | Some o, Some x =>
-        match shift_const_error o x with
-        | None => # "ok:"
-        | Some e => # "err:" ++ err_name e
-        end
-      | _, _ => # "driver-error:shifterr"
       end
     else # "driver-error:unknown"
   | [fn; a] =>
